@@ -225,6 +225,21 @@ def short_uint(value: int) -> bytes:
     return common.Struct.ushort.pack(value)
 
 
+def short_short_int(value: int) -> bytes:
+    """Encode a short-short integer
+
+    :param value: Value to encode
+    :raises TypeError: when the value is not the correct type or outside the
+        acceptable range for the data type
+
+    """
+    if not isinstance(value, int):
+        raise TypeError('int required, received {}'.format(type(value)))
+    elif not (-128 <= value <= 127):
+        raise TypeError('Short-short integer range: -128 to 127')
+    return common.Struct.short_short_int.pack(value)
+
+
 def short_string(value: str) -> bytes:
     """ Encode a string
 
@@ -311,7 +326,7 @@ def table_integer(value: int) -> bytes:
     if DEPRECATED_RABBITMQ_SUPPORT:
         return _deprecated_table_integer(value)
     if -128 <= value <= 127:
-        return b'b' + octet(value)
+        return b'b' + short_short_int(value)
     elif -32768 <= value <= 32767:
         return b's' + short_int(value)
     elif 0 <= value <= 65535:
@@ -335,7 +350,7 @@ def _deprecated_table_integer(value: int) -> bytes:
 
     """
     if -128 <= value <= 127:
-        return b'b' + octet(value)
+        return b'b' + short_short_int(value)
     elif -32768 <= value <= 32767:
         return b's' + short_int(value)
     elif -2147483648 <= value <= 2147483647:
